@@ -27,6 +27,7 @@ import random
 from pathlib import Path
 
 from .. import common as C
+from .. import forms as F
 from ..oracles import print_codec as PC
 from ..oracles import print_names as PN
 
@@ -49,6 +50,7 @@ RULE = ("type-directed constructions through the public builders only: P(...), P
         "and the F4/F5 witnesses. Token-string stream: printed texts with 0-3 token mutations, Python's parser vs PyParse. "
         "A case is non-trivial when the built object has >= 2 leaves and contains a product, a sum or a fraction.")
 ASSUMPTIONS = [
+    "argument FORMS of the builders (harness/forms.py, harness/oracles/print_codec.py to_source_alt; tag form_dsl_form / alt_form_result): the construction tree is the form the model interprets (names as Variable objects, tuples); on the real code the SAME construction is additionally built in one alternative legal form per case -- plain names as str ('A') wherever a VariableHint is taken (arguments of P / PP[..] / Q[..], right operand of @ | &, subscripts of P / Sum / Q), tuples as lists, tuples as generator expressions, P[..](..) / PP[pop][..](..) as P(.., interventions=..) -- and, when that object is not the one the baseline form builds, the property's oracle (parse_y0(str(e')) succeeds, same meaning, equal on the simple-division family) is applied to it as well. That the alternative form builds an EQUAL object is dsl.py's documented behaviour, not part of C12: it is reported as a tag (alt_form_result: equal / differs / raises), never as a failure; there is no model side for the alternative form",
     "the clause theorems quantify over expressions satisfying the decidable invariant `built` (children/parents/ranges/"
     "(co)domains/subscripts sorted with each name once, products flat and in stable-sorted order without constant factors, Zero() "
     "only as the whole expression). That every expression built through the public DSL satisfies it IS a theorem (built_of_eval, "
@@ -508,6 +510,10 @@ SPECIAL = [{"kind": "special", "what": "target_domain"}]
 
 
 def cases(rng: random.Random, tier: str):
+    return [F.assign(c, _slots(c)) if c.get("kind") == "expr" else c for c in _cases(rng, tier)]
+
+
+def _cases(rng: random.Random, tier: str):
     out = load_corpus() + [dict(c) for c in SPECIAL]
     n = {"quick": 9000, "escalated": 30000}.get(tier, 90000)
     for _ in range(n):
@@ -686,6 +692,67 @@ def _run_special(case):
     return {"out": ["special"], "fail": fail, "nontrivial": False, "tags": {"kind": "special"}}
 
 
+def _slots(case):
+    return {"dsl_form": PC.ALT_STYLES} if case.get("kind") == "expr" else {}
+
+
+def _roundtrip_fail(e, seed):
+    """the property's oracle on one built expression (real code only): None or the failure text"""
+    from y0.dsl import Expression
+    from y0.parser import parse_y0
+
+    from ..oracles import print_eval as EV
+
+    try:
+        s = str(e)
+    except Exception as x:  # noqa: BLE001
+        return f"printing the built expression raised {type(x).__name__}: {str(x)[:100]}"
+    try:
+        p = parse_y0(s)
+    except Exception as x:  # noqa: BLE001
+        return f"parse_y0({s!r}) raised {type(x).__name__}: {str(x)[:120]}"
+    if not isinstance(p, Expression):
+        return f"parse_y0({s!r}) returned a {type(p).__name__}, not an expression"
+    if p != e:
+        why = EV.same_meaning(e, p, seed=seed + len(s))
+        if why is not None:
+            return f"meaning changed: {s!r} parses to {str(p)!r}; {why}"
+    if simple_divisions(e):
+        if p != e:
+            return f"simple-division family: parse_y0({s!r}) = {str(p)!r} is not equal to the original object"
+        if str(p) != s:
+            return f"simple-division family: the parsed object prints {str(p)!r}, the original {s!r}"
+    return None
+
+
+def _alt_form(case, e, once, tags):
+    """build the same construction in the alternative argument form recorded for the case; returns a failure or None"""
+    from y0.dsl import Expression
+
+    style = F.forms_of(case, _slots(case))["dsl_form"]
+    tags["form_dsl_form"] = style
+    if style == "baseline" or PC.to_source_alt(case["build"], style) == PC.to_source(case["build"]):
+        tags["alt_form_result"] = "same source"
+        return None
+    try:
+        e2 = PC.build_alt(case["build"], style)
+    except Exception as x:  # noqa: BLE001 - documented equivalence of forms is dsl.py's business, not C12's
+        tags["alt_form_result"] = "raises " + type(x).__name__
+        return None
+    try:
+        same = e2 == e and str(e2) == str(e)
+    except Exception:  # noqa: BLE001 - an object that cannot be printed is not equal to one that can
+        same = False
+    if same:
+        tags["alt_form_result"] = "equal"
+        return None
+    tags["alt_form_result"] = "differs"
+    if not isinstance(e2, Expression) or not once:
+        return None
+    f = _roundtrip_fail(e2, case.get("seed", 0))
+    return None if f is None else f"built as {PC.to_source_alt(case['build'], style)}: {f}"
+
+
 def run_python(case):
     from y0.dsl import CounterfactualVariable, Expression, Fraction, One, PopulationProbability, Probability, Product, QFactor, Sum, Zero
     from y0.parser import parse_y0
@@ -747,6 +814,8 @@ def run_python(case):
     if not once and fail is not None:
         tags["outside_quantifier_roundtrip"] = "fails: " + fail.split(":")[0][:40]
         fail = None                  # a repeated name: outside the property's quantifier, nothing is claimed
+    alt_fail = _alt_form(case, e, once, tags)
+    fail = fail or alt_fail
     nodes = list(_walk(e))
     leaves = [x for x in nodes if isinstance(x, (Probability, QFactor, One, Zero))]
     has = lambda cls: any(isinstance(x, cls) for x in nodes)  # noqa: E731
@@ -860,7 +929,7 @@ def shrink(case):
                 k = json.dumps(cand)
                 if k not in seen and cand != a:
                     seen.add(k)
-                    yield {"kind": "expr", "build": cand}
+                    yield {"kind": "expr", "build": cand, "forms": case.get("forms", {})}
         # drop one argument / tuple element
         if node[0] in ("call", "tup") and len(node) > (3 if node[0] == "tup" else 2):
             for i in range(2 if node[0] == "call" else 1, len(node)):
@@ -870,7 +939,7 @@ def shrink(case):
                 k = json.dumps(cand)
                 if k not in seen:
                     seen.add(k)
-                    yield {"kind": "expr", "build": cand}
+                    yield {"kind": "expr", "build": cand, "forms": case.get("forms", {})}
 
 
 def finding_key(case, res):
